@@ -148,6 +148,51 @@ func init() {
 			th.daemon = true
 			return nil
 		},
+		"verifQuiesce": func(p *Path, th *Thread, fr *Frame, args []Value) Value {
+			// block until no other thread can make progress (environment waits for the system to settle)
+			p.sched.syncPoint(th, func() bool {
+				for _, t := range p.sched.threads {
+					if t == th || t.done {
+						continue
+					}
+					if t.ready == nil || t.ready() {
+						return false
+					}
+				}
+				return true
+			})
+			return nil
+		},
+		"verifNetKill": func(p *Path, th *Thread, fr *Frame, args []Value) Value {
+			// the process listening on addr dies: listener and every connection accepted through it are closed
+			addr := args[0].(string)
+			if l, ok := p.net().listeners[addr]; ok {
+				l.closed = true
+				for _, e := range l.accepted {
+					e.closed = true
+				}
+				for _, e := range l.queue {
+					e.closed = true
+				}
+			}
+			return nil
+		},
+		"verifFireTimers": func(p *Path, th *Thread, fr *Frame, args []Value) Value {
+			// environment step "time passes": fires every live timer with the given label that some thread waits on
+			label := args[0].(string)
+			n := 0
+			for _, t := range p.sched.liveTimers() {
+				if t.label == label {
+					p.sched.fire(t)
+					n++
+				}
+			}
+			return p.mkIntT(int64(n))
+		},
+		"verifSleepCount": func(p *Path, th *Thread, fr *Frame, args []Value) Value {
+			n, _ := p.side["sleepCount"].(int)
+			return p.mkIntT(int64(n))
+		},
 		"verifFail": func(p *Path, th *Thread, fr *Frame, args []Value) Value {
 			p.assertObl(p.tt.Bool(false), args[0].(string))
 			return nil
